@@ -77,7 +77,7 @@ def run(tier, replay=None):
         meta.append({"spans": [], "gfile": 1, "free": True})
     if replay:
         w = json.load(open(replay))["witness"]
-        hc = [w["case"]]
+        hc = [dict(w["case"], mode="observe")]      # a witness of the binary's output is replayed through both readers
         meta = [w["meta"]]
     for i, h in enumerate(hc):
         h["id"] = i + 1
@@ -88,6 +88,45 @@ def run(tier, replay=None):
         e.setdefault("lints", [])
         e.setdefault("cfgerr", {})
         e.setdefault("cfgok", False)
+    # the same judgement on what the rva binary prints (its own file reader): --json carries line, column and raw
+    # offset of both ends; the text is the file as it is on disk
+    if True:
+        import subprocess, tempfile
+        rva = build_cli()
+        if replay:
+            pick = [0]
+        else:
+            pick = [i for i, h in enumerate(hc) if len(h["files"]) <= 2][:: max(1, len(hc) // (150 if tier == "quick" else 1500))]
+            pick += [i for i, h in enumerate(hc) if "\r\n" in h["files"].get("main.s", "")][:40]
+        cli_evs = []
+        with tempfile.TemporaryDirectory(dir=WORK) as td:
+            for k, i in enumerate(sorted(set(pick))):
+                d = os.path.join(td, str(k))
+                os.makedirs(d)
+                names = sorted(hc[i]["files"], key=lambda n: (n != "main.s", n))
+                for n in names:
+                    open(os.path.join(d, n), "w", newline="", encoding="utf-8").write(hc[i]["files"][n])
+                try:
+                    q = subprocess.run([rva, "lint", os.path.join(d, "main.s"), "--json"], stdout=subprocess.PIPE,
+                                       stderr=subprocess.DEVNULL, timeout=20)
+                    jd = json.loads(q.stdout.decode("utf-8", "replace"))["diagnostics"]
+                except (subprocess.TimeoutExpired, ValueError, KeyError):
+                    continue
+                real = {os.path.realpath(os.path.join(d, n)): j + 1 for j, n in enumerate(names)}
+                lints = []
+                for x in jd:
+                    f = real.get(os.path.realpath(x["file"]), 0) if x["file"] else 0
+                    if f == 0:
+                        continue          # an error attributed to no file is C16's business
+                    st, en = x["range"]["start"], x["range"]["end"]
+                    lints.append({"code": "cli:" + x["title"].split(":")[0], "file": f, "l0": st["line"], "c0": st["column"], "r0": st["raw"],
+                                  "l1": en["line"], "c1": en["column"], "r1": en["raw"]})
+                cli_evs.append({"ev": "obs", "id": len(hc) + 1, "files": [{"name": n, "text": [ord(c) for c in hc[i]["files"][n]]} for n in names],
+                                "toks": [], "nodes": [], "errors": [], "lints": lints, "cfgok": True, "cfgerr": {}, "cfg": {"nodes": []},
+                                "case": {"spans": [], "gfile": 1, "free": True}})
+                hc.append({"mode": "cli", "files": hc[i]["files"], "base": "main.s"})
+                meta.append({"spans": [], "gfile": 1, "free": True})
+        evs += cli_evs
     for e in evs:
         # places of the graph nodes (the facts are not needed here)
         e["gnodes"] = [{"k": n["node"]["k"], "file": n["node"]["file"], "r0": n["node"]["r0"], "r1": n["node"]["r1"]}
